@@ -10,7 +10,7 @@ PARALLEL = True
 BATCH = 100
 BUDGET_S = {'quick': 80, 'thorough': 1200}
 RULE = ('dense datasets with small-integer templates, absent / diagonal dyadic / unit-triangular whitening (inverse '
-        'supplied or computed), dyadic non-negative amplitudes, features whose positive part may vanish (1..3 '
+        'supplied or computed), dyadic non-negative amplitudes, features whose positive part may vanish (2..3 '
         'components, channel lists with or without repeats), templates or clusters without spikes at first / middle / '
         'last position, unit factors 1, 2.5, sampling rates, curated and un-curated clusters, id / amplitude / '
         'template dtypes; a class with a negative or zero unit factor or negative stored amplitudes (the clause '
@@ -27,6 +27,10 @@ ASSUMPTIONS = ['exact-arithmetic model; the generated values make every float op
                'exact rationals; the real float32 / float64 chain is compared with an absolute tolerance of 1e-5 x the '
                'largest magnitude involved (float32 rounding is 6e-8), peak channels within that tolerance of the '
                'largest peak-to-peak are all accepted',
+               'feature stores have >= 2 components and >= 2 local channels: a size-1 axis of pc_features.npy is squeezed away by '
+               '_read_array and the 2-D remainder (n_spikes, k) is ambiguous; the real loader reads it as k components on ONE local '
+               'channel, so a one-component file on k channels fails the shape assertion at load (AssertionError) - outside the '
+               'quantifier, not generated, not judged',
                'the per-template channel lists (get_template(t, unwhiten=False).channel_ids, property C05) that curated '
                'cluster means are restricted to are observed on the real model (validated by ./check C08 with the C05 model)']
 
@@ -391,7 +395,12 @@ def _vary_storage(rng, spec):
                           templates=rng.pick(['float32', 'float32', 'float64']))
     if spec.get('pc_features') is not None:
         nloc = len(spec['pc_features'][0][0])
-        npc = rng.pick([1, 2, 2, 3])
+        # 2..3 components are in-domain.  ONE component is not generated: `_read_array` squeezes the size-1 axis of
+        # pc_features.npy, and the loader reads the resulting (n_spikes, k) array as k components on ONE local channel
+        # (reshape to (n, k, 1), transpose -> (n, 1, k)); a file meant as one component on k channels then fails the
+        # shape assertion against pc_feature_ind.npy (AssertionError at load).  The 2-D array is ambiguous between the
+        # two readings: a squeezed stored dimension is outside the quantifier (DESIGN 9.4).
+        npc = rng.pick([2, 2, 3])
         for fsp in spec['pc_features']:
             del fsp[npc:]
             while len(fsp) < npc:
